@@ -320,18 +320,29 @@ func runExec(seed int64, r *rand.Rand, stay int, replay []uint8) runResult {
 		u := acc.stores[t].get(st.user)
 		switch op {
 		case "skv":
-			k := []byte(fmt.Sprintf("key%d", ar.Intn(3)))
-			v := make([]byte, ar.Intn(20))
-			ar.Read(v)
-			old := st.kv[string(k)]
-			lenChange := uint64(0)
-			if !bytes.Equal(old, v) && len(v) > len(old) {
-				lenChange = uint64(len(v) - len(old))
+			npairs := 1 + ar.Intn(3)
+			var args [][]byte
+			type pc struct{ lk, lv, change uint64 }
+			var pcs []pc
+			for i := 0; i < npairs; i++ {
+				k := []byte(fmt.Sprintf("key%d", ar.Intn(3)))
+				v := make([]byte, ar.Intn(20))
+				ar.Read(v)
+				old := st.kv[string(k)]
+				lenChange := uint64(0)
+				if !bytes.Equal(old, v) && len(v) > len(old) {
+					lenChange = uint64(len(v) - len(old))
+				}
+				st.kv[string(k)] = v
+				args = append(args, k, v)
+				pcs = append(pcs, pc{uint64(len(k)), uint64(len(v)), lenChange})
 			}
-			st.kv[string(k)] = v
-			lk, lv := uint64(len(k)), uint64(len(v))
-			return call(t, "SaveKeyValue", st.user, st.user, [][]byte{k, v}, u, u, func(k int, _ *vmcommon.VMOutput) uint64 {
-				return fcost(k, "SaveKeyValue") + persistPB(k)*(lk+lv) + storePB(k)*lenChange
+			return call(t, "SaveKeyValue", st.user, st.user, args, u, u, func(k int, _ *vmcommon.VMOutput) uint64 {
+				c := fcost(k, "SaveKeyValue")
+				for _, p := range pcs {
+					c += persistPB(k)*(p.lk+p.lv) + storePB(k)*p.change
+				}
+				return c
 			}), true
 		case "create":
 			args := [][]byte{tokN, big.NewInt(1000).Bytes(), []byte("name"), big.NewInt(100).Bytes(), []byte("hash"), make([]byte, ar.Intn(30)), make([]byte, 1+ar.Intn(20))}
